@@ -25,7 +25,7 @@ m = {
     'engines': [{'name': 'hypothesis', 'path': 'pbt/runner.py', 'serves_properties': sorted(CHECKS),
                  'kind_free_text': 'Hypothesis 6.168 property-based search (seeded, sharded over processes) with explicit oracles, shrinking to JSON replay files'}],
     'checks': checks,
-    'notes': 'All checks: ./check CNN --tier quick|thorough [--replay file]; VERIF_SEED honoured; exit 0/1/2. source_commits lists the unguarded "fix:" commits made in /repo (no guarded hook commits exist).',
+    'notes': 'All checks: ./check CNN --tier quick|thorough [--replay file]; VERIF_SEED honoured; exit 0 held / 1 VIOLATION / 2 harness error. No guarded hook commits exist (hooks.source_commits is empty); the unguarded "fix:" commits made in /repo are listed with what failed in known_findings.json (status fixed) and DESIGN.md section 6; open findings print KNOWN-FINDING lines. Seeded changes from independent agents: seeded/ (REPORT.md), run with tools/run_seeded.py.',
     'not_applicable': [{'property_id': k, 'reason': v} for k, v in sorted(NOT_APPLICABLE.items())],
 }
 json.dump(m, open('MANIFEST.json', 'w'), indent=1)
